@@ -314,7 +314,7 @@ def hyp_drive(run, st, strategy, oracle, max_examples, seed, to_case=None, shrin
                 return
             if sig in seen:
                 return
-            raise Violation(sig, r[1], to_case(x) if to_case else x)
+            raise Violation(sig, r[1], r[2] if len(r) > 2 else (to_case(x) if to_case else x))
         try:
             t()
             return
